@@ -473,6 +473,7 @@ func (m *machineManager) Do(ctx context.Context) {
 	)
 	defer logTicker.Stop()
 	for {
+		verifManagerLoop(m, &machQ, &probation, need, pending)
 		var (
 			req   *scheduleRequest
 			mach  *sliceMachine
